@@ -467,38 +467,78 @@ pub fn digest_specs() -> Vec<RuleSpec> {
 /// per-rule digests of (optimised Display, verdict table, serialised form) over a slice of the
 /// universe, computed in this process in the given processing order (results are reported in
 /// canonical order, so a dependence on what was processed before shows as a difference)
-pub fn digest(reverse: bool) -> (u64, usize, Vec<u64>) {
+/// processing orders: 0 identity, 1 reverse, k >= 2 a fixed pseudo-random shuffle with seed k
+pub fn order_of(n: usize, mode: u64) -> Vec<usize> {
+    let mut order: Vec<usize> = (0..n).collect();
+    match mode {
+        0 => {}
+        1 => order.reverse(),
+        k => {
+            let mut rng = crate::report::Rng::new(k * 7919);
+            for i in (1..n).rev() {
+                order.swap(i, rng.below(i + 1));
+            }
+        }
+    }
+    order
+}
+
+fn rule_digest(sp: &RuleSpec) -> Option<u64> {
+    let yaml = sp.yaml();
+    let r = eng::load(&yaml).ok()?;
+    let mut acc: Vec<u64> = vec![];
+    let docs = gen::docs_for(sp, 1, 60);
+    for sw in [0u8, 0b1111, 0b1110, 0b1010, 0b0100] {
+        let o = r.clone().optimise(eng::opts(sw));
+        let bits: String = docs.iter().map(|d| if o.matches(d) { '1' } else { '0' }).collect();
+        acc.push(stable_hash(&(eng::canon(&o), bits, format!("{}", o.detection.expression))));
+        // serialised form is part of what a user can observe
+        acc.push(stable_hash(&serde_yaml::to_string(&o).map(|t| {
+            // identifiers are a HashMap in the serialised struct: compare as a sorted set of lines
+            let mut l: Vec<&str> = t.lines().collect();
+            l.sort();
+            l.join("\n")
+        }).unwrap_or_default()));
+    }
+    Some(stable_hash(&acc))
+}
+
+/// the rules whose pairwise order is explored exhaustively (one fresh process per ordered pair)
+pub fn pair_specs() -> Vec<RuleSpec> {
+    let mut v: Vec<RuleSpec> = gen::family_regex(3).into_iter().filter(|s| eng::load(&s.yaml()).is_ok()).collect();
+    v.extend(gen::family_single(0).into_iter().step_by(97));
+    v.extend(gen::family_matrix(0).into_iter().step_by(997));
+    v.extend(gen::family_wide().into_iter().step_by(7));
+    v
+}
+
+/// child: process rule i, then rule j, print the digest of rule j
+pub fn pair_child(i: usize, j: usize) -> i32 {
+    let v = pair_specs();
+    if i >= v.len() || j >= v.len() {
+        return 2;
+    }
+    let _ = rule_digest(&v[i]);
+    println!("{:x}", rule_digest(&v[j]).unwrap_or(0));
+    0
+}
+
+pub fn digest(mode: u64) -> (u64, usize, Vec<u64>) {
     let specs = digest_specs();
     let mut per_rule: Vec<u64> = vec![0; specs.len()];
     let mut n = 0;
-    let order: Vec<usize> = if reverse { (0..specs.len()).rev().collect() } else { (0..specs.len()).collect() };
+    let order: Vec<usize> = order_of(specs.len(), mode);
     for i in order {
-        let sp = &specs[i];
-        let yaml = sp.yaml();
-        let mut acc: Vec<u64> = vec![];
-        if let Ok(r) = eng::load(&yaml) {
+        if let Some(h) = rule_digest(&specs[i]) {
             n += 1;
-            let docs = gen::docs_for(sp, 1, 60);
-            for sw in [0u8, 0b1111, 0b1110, 0b1010, 0b0100] {
-                let o = r.clone().optimise(eng::opts(sw));
-                let bits: String = docs.iter().map(|d| if o.matches(d) { '1' } else { '0' }).collect();
-                acc.push(stable_hash(&(eng::canon(&o), bits, format!("{}", o.detection.expression))));
-                // serialised form is part of what a user can observe
-                acc.push(stable_hash(&serde_yaml::to_string(&o).map(|t| {
-                    // identifiers are a HashMap in the serialised struct: compare as a sorted set of lines
-                    let mut l: Vec<&str> = t.lines().collect();
-                    l.sort();
-                    l.join("\n")
-                }).unwrap_or_default()));
-            }
+            per_rule[i] = h;
         }
-        per_rule[i] = stable_hash(&acc);
     }
     (stable_hash(&per_rule), n, per_rule)
 }
 
-pub fn digest_child(reverse: bool) -> i32 {
-    let (d, n, per) = digest(reverse);
+pub fn digest_child(mode: u64) -> i32 {
+    let (d, n, per) = digest(mode);
     println!("digest {:016x} rules {}", d, n);
     println!("per-rule {}", per.iter().map(|x| format!("{:x}", x)).collect::<Vec<_>>().join(","));
     0
@@ -675,25 +715,29 @@ pub fn run(tier: Tier) -> i32 {
     }
     // part 4: two fresh processes (different environment and working directory) + this process
     let exe = std::env::current_exe().unwrap();
-    let here = digest(false);
+    let here = digest(0);
     let specs_d = digest_specs();
     let mut digests: BTreeMap<String, String> = BTreeMap::new();
     digests.insert("in-process".into(), format!("digest {:016x} rules {}", here.0, here.1));
-    for (i, (cwd, tz)) in [("/", "UTC"), ("/tmp", "Asia/Tokyo")].iter().enumerate() {
-        let mut cmd = std::process::Command::new(&exe);
-        cmd.arg("--c12-digest");
-        if i == 1 {
-            cmd.arg("reverse");
-        }
-        let out = cmd
-            .current_dir(cwd)
-            .env("TZ", tz)
-            .env("LANG", if i == 0 { "C" } else { "de_DE.UTF-8" })
-            .env("RUST_BACKTRACE", if i == 0 { "0" } else { "1" })
-            .output();
+    let envs = [("/", "UTC", "C"), ("/tmp", "Asia/Tokyo", "de_DE.UTF-8")];
+    let modes: Vec<u64> = if th { vec![0, 1, 2, 3, 4, 5, 6, 7, 8, 9] } else { vec![0, 1, 2, 3, 4, 5] };
+    let outs: Vec<(u64, Result<String, String>)> = modes
+        .par_iter()
+        .map(|m| {
+            let (cwd, tz, lang) = envs[(*m as usize) % 2];
+            let out = std::process::Command::new(&exe)
+                .arg("--c12-digest")
+                .arg(m.to_string())
+                .current_dir(cwd)
+                .env("TZ", tz)
+                .env("LANG", lang)
+                .output();
+            (*m, out.map(|o| String::from_utf8_lossy(&o.stdout).to_string()).map_err(|e| e.to_string()))
+        })
+        .collect();
+    for (m, out) in outs {
         match out {
-            Ok(o) => {
-                let t = String::from_utf8_lossy(&o.stdout).to_string();
+            Ok(t) => {
                 let mut lines = t.lines();
                 let first = lines.next().unwrap_or("").trim().to_string();
                 let per: Vec<String> = lines
@@ -705,13 +749,10 @@ pub fn run(tier: Tier) -> i32 {
                     // name the first rule whose observable behaviour differs
                     let mine: Vec<String> = here.2.iter().map(|x| format!("{:x}", x)).collect();
                     if let Some(k) = (0..mine.len().min(per.len())).find(|k| mine[*k] != per[*k]) {
-                        digests.insert(format!("first-differing-rule(child{})", i), one_line(&specs_d[k].yaml()));
+                        digests.insert(format!("first-differing-rule(order {})", m), one_line(&specs_d[k].yaml()));
                     }
                 }
-                digests.insert(
-                    format!("child{}(cwd={},TZ={},order={})", i, cwd, tz, if i == 1 { "reversed" } else { "same" }),
-                    first,
-                );
+                digests.insert(format!("child(order {})", m), first);
             }
             Err(e) => {
                 eprintln!("machinery error: cannot run the digest child: {}", e);
@@ -719,10 +760,60 @@ pub fn run(tier: Tier) -> i32 {
             }
         }
     }
+    // exhaustive ordered pairs over the state-sensitive slice: rule j must look the same
+    // whatever single rule i the process handled before it
+    let pv = pair_specs();
+    let alone: Vec<String> = (0..pv.len())
+        .into_par_iter()
+        .map(|j| {
+            std::process::Command::new(&exe)
+                .arg("--c12-pair")
+                .arg(j.to_string())
+                .arg(j.to_string())
+                .output()
+                .map(|o| String::from_utf8_lossy(&o.stdout).trim().to_string())
+                .unwrap_or_default()
+        })
+        .collect();
+    let np = pv.len();
+    let pairs: Vec<(usize, usize)> = (0..np).flat_map(|i| (0..np).map(move |j| (i, j))).filter(|(i, j)| i != j).collect();
+    let bad_pairs: Vec<(usize, usize, String)> = pairs
+        .par_iter()
+        .filter_map(|(i, j)| {
+            let o = std::process::Command::new(&exe)
+                .arg("--c12-pair")
+                .arg(i.to_string())
+                .arg(j.to_string())
+                .output()
+                .map(|o| String::from_utf8_lossy(&o.stdout).trim().to_string())
+                .unwrap_or_default();
+            if o != alone[*j] {
+                Some((*i, *j, o))
+            } else {
+                None
+            }
+        })
+        .collect();
+    rep.stats.states += pairs.len() as u64;
+    rep.stats.transitions += 2 * pairs.len() as u64;
+    rep.stats.traces += pairs.len() as u64;
+    rep.stats.count("part4_ordered_rule_pairs_in_fresh_processes", pairs.len() as u64);
+    if let Some((i, j, _)) = bad_pairs.first() {
+        rep.stats.push_violation(Violation {
+            signature: "result-depends-on-a-rule-handled-earlier-in-the-process".into(),
+            witness: format!(
+                "{} ordered pairs differ, e.g. after handling [{}] the rule [{}] optimises/decides differently than on its own",
+                bad_pairs.len(),
+                one_line(&pv[*i].yaml()),
+                one_line(&pv[*j].yaml())
+            ),
+            replay: json!({"kind":"process","first_rule_yaml":pv[*i].yaml(),"rule_yaml":pv[*j].yaml()}),
+        });
+    }
     let distinct: BTreeSet<&String> = digests.iter().filter(|(k, _)| !k.starts_with("first-differing")).map(|(_, v)| v).collect();
-    rep.stats.states += 3;
-    rep.stats.transitions += 3 * here.1 as u64 * 4;
-    rep.stats.traces += 3;
+    rep.stats.states += modes.len() as u64 + 1;
+    rep.stats.transitions += (modes.len() as u64 + 1) * here.1 as u64 * 5;
+    rep.stats.traces += modes.len() as u64 + 1;
     if distinct.len() != 1 {
         rep.stats.push_violation(Violation {
             signature: "output-differs-between-processes".into(),
